@@ -351,7 +351,7 @@ func instrumentTree(root, dst string, points bool) (*instrResult, error) {
 				res.Swaps[path]++
 			}
 		}
-		chanUsed := usesChannels(f)
+		chanUsed := usesChannels(f) || (facts != nil && facts.mentions(p))
 		if chanUsed {
 			if facts == nil {
 				in.unsupported(f.Pos(), "channels need the type-checking pass, which failed: "+res.MapRangeNote)
